@@ -93,7 +93,17 @@ TOL_REP = 1e-10    # representation / entry-point agreement, relative to the lar
 TOL_NEUT = 1e-9    # neutrality, relative to n_e
 DISTINCT = 1e-6    # reference with/without donor must differ by this much before 'donor-ignored' can be diagnosed
 
+CALL_CPU_LIMIT_S = 15.0   # user-CPU seconds allowed to one call of the real code (ITIMER_VIRTUAL: immune to machine load)
+
 _G = {}
+
+
+class _DoesNotReturn(BaseException):
+    pass
+
+
+def _on_vtalrm(signum, frame):
+    raise _DoesNotReturn()
 
 
 # ---------------------------------------------------------------------------------------------------------------
@@ -124,7 +134,9 @@ def crash_label(case):
 def setup_worker(tier):
     if _G:
         return
+    import signal
     import numpy as np
+    signal.signal(signal.SIGVTALRM, _on_vtalrm)
     from cherab.core.atomic import AtomicData, lookup_element
     from cherab.tools.plasmas import ionisation_balance as ib
     from mc.refs import ionbal as R
@@ -180,6 +192,7 @@ class Ctx:
         self.donor = None if self.dz is None else _G["el"][self.dz]
         self.viol, self.classes, self.nontrivial, self.states = [], [], [], []
         self.sigs = set()
+        self.hung = set()        # entry points (and (entry, lattice index)) whose call did not return in this case
         self.n = 0
         self.transitions = 0
         self.check = 0.0
@@ -239,14 +252,29 @@ class Ctx:
 
     # -- calls -------------------------------------------------------------------------------------------------
     def call(self, fn, *a, **k):
-        """call the real code; returns (value, None) or (None, 'ExcType')"""
+        """call the real code under a CPU-time watchdog; returns (value, None) or (None, 'ExcType: message')"""
+        import signal
         self.transitions += 1
         buf = io.StringIO()
+        signal.setitimer(signal.ITIMER_VIRTUAL, CALL_CPU_LIMIT_S)
         try:
             with contextlib.redirect_stdout(buf):
                 return fn(*a, **k), None
+        except _DoesNotReturn:
+            return None, "DoesNotReturn: no result after %g s of CPU time (a 12-point profile normally needs < 1 s)" % CALL_CPU_LIMIT_S
         except Exception as e:  # noqa
             return None, type(e).__name__ + ": " + str(e)[:200]
+        finally:
+            signal.setitimer(signal.ITIMER_VIRTUAL, 0)
+
+    def failed(self, entry, rep, err, what, expected="a result"):
+        """a call of the real code raised / did not return: one signature per (entry, failure kind)"""
+        if _exc_type(err) == "DoesNotReturn":
+            self.hung.add(entry)
+            # independent of the representation: the point solver is shared by all of them
+            self.V("%s:does-not-return" % entry, what + " never returns", expected, err)
+        else:
+            self.V("%s:repr=%s:raises:%s" % (entry, rep, _exc_type(err)), what + " raises", expected, err)
 
     def donor_kw(self, nd_arg):
         if self.donor is None:
@@ -543,6 +571,9 @@ def scalar_baseline(ctx, entry, ks, nel_mult=None, sp=None, container="dict"):
     for k in ks:
         p = ctx.pts[k]
         kw = ctx.donor_kw(p["nd"])
+        if (entry, k) in ctx.hung:
+            out[k] = None
+            continue
         if entry == "fractional_abundance":
             r, err = ctx.call(ib.fractional_abundance, ctx.ad, ctx.el, p["ne"], p["te"], **kw)
         elif entry == "from_elementdensity":
@@ -550,7 +581,9 @@ def scalar_baseline(ctx, entry, ks, nel_mult=None, sp=None, container="dict"):
         else:
             r, err = ctx.call(ib.match_plasma_neutrality, ctx.ad, ctx.el, species_arg(sp, container, "scalar", k), p["ne"], p["te"], **kw)
         if err is not None:
-            ctx.V("%s:repr=scalar:raises:%s" % (entry, _exc_type(err)), "scalar call raises at " + ctx.ptdesc(p), "a result", err)
+            ctx.failed(entry, "scalar", err, "scalar call at " + ctx.ptdesc(p))
+            if _exc_type(err) == "DoesNotReturn":
+                ctx.hung.add((entry, k))
             out[k] = None
             continue
         prof = _profile(ctx, entry, "scalar", r, (1,))
@@ -578,7 +611,7 @@ def group_scalar(ctx):
             ctx.classes.append("scalar-type:" + tname)
             ctx.n += 1
             if err is not None:
-                ctx.V("fractional_abundance:repr=scalar-%s:raises:%s" % (tname, _exc_type(err)), "scalar call raises at " + ctx.ptdesc(p), "a result", err)
+                ctx.failed("fractional_abundance", "scalar-" + tname, err, "scalar call at " + ctx.ptdesc(p))
                 continue
             prof = _profile(ctx, "fractional_abundance", "scalar-" + tname, r, (1,))
             if prof is not None:
@@ -651,7 +684,9 @@ def run_rep(ctx, entry, rep, extra_vals=None, sp=None, container="dict"):
             skind = kx
         r, err = ctx.call(ib.match_plasma_neutrality, ctx.ad, ctx.el, species_arg(sp, container, skind, K0), ne, te, **kw)
     if err is not None:
-        ctx.V("%s:repr=%s:raises:%s" % (entry, rep, _exc_type(err)), "call raises for a documented input representation", "a result", err)
+        ctx.failed(entry, rep, err, "call with a documented input representation")
+        if _exc_type(err) == "DoesNotReturn":
+            ctx.hung.add(("profile", entry))
         return None, shape, ks
     return _profile(ctx, entry, rep, r, shape), shape, ks
 
@@ -683,7 +718,9 @@ def group_repr(ctx, entry):
                 r, err = ctx.call(ib.from_elementdensity, ctx.ad, ctx.el, extra[k], p["ne"], p["te"], **ctx.donor_kw(p["nd"]))
                 prof = None if err is not None else _profile(ctx, entry, "scalar", r, (1,))
                 if err is not None:
-                    ctx.V("%s:repr=scalar:raises:%s" % (entry, _exc_type(err)), "scalar call raises at " + ctx.ptdesc(p), "a result", err)
+                    ctx.failed(entry, "scalar", err, "scalar call at " + ctx.ptdesc(p))
+                    if _exc_type(err) == "DoesNotReturn":
+                        ctx.hung.add((entry, k))
                 base[k] = None if prof is None else prof[:, 0]
         else:
             base = scalar_baseline(ctx, entry, allk, sp=sp, container=container)
@@ -691,6 +728,12 @@ def group_repr(ctx, entry):
             if container == "ndarray" and rep_spec(rep)[3] not in ("arr1", "arr1-len1", "arr2"):
                 continue
             ctx.classes.append("repr:" + rep)
+            if ("profile", entry) in ctx.hung and any((entry, k) in ctx.hung for k in rep_spec(rep)[6]):
+                # a profile containing a lattice point at which the scalar call does not return has already been tried once
+                # (and did not return either); the remaining representations of the same profile are not waited for
+                for k in rep_spec(rep)[6]:
+                    ctx.visit(entry, rep + ":not-called:does-not-return", ctx.pts[k])
+                continue
             prof, shape, ks = run_rep(ctx, entry, rep, extra_vals=extra, sp=sp, container=container)
             for idx, k in enumerate(ks):
                 p = ctx.pts[k]
@@ -728,7 +771,7 @@ def _core_profiles(ctx, kind, shape, nel_vals, sp, qs):
     for entry, fn in calls.items():
         r, err = fn()
         if err is not None:
-            ctx.V("%s:repr=%s:raises:%s" % (entry, rep, _exc_type(err)), "call raises for a documented input representation", "a result", err)
+            ctx.failed(entry, rep, err, "call with a documented input representation")
             out[entry] = None
             continue
         prof = _profile(ctx, entry, rep, r, shape)
@@ -783,6 +826,12 @@ def group_interp(ctx, dim):
         kw = ctx.donor_kw(nd)
         for name, centry in zip(names, CORE):
             ctx.classes += ["entry:" + name, "entry:" + centry]
+            if centry in ctx.hung:
+                # the core entry point did not return on this very profile (reported under the core's signature);
+                # the wrapper runs the same point solver on it
+                for k, p in enumerate(pts):
+                    ctx.visit(name, "not-called:core-does-not-return", p)
+                continue
             if centry == "fractional_abundance":
                 r, err = ctx.call(getattr(ib, name), ctx.ad, ctx.el, fvs(), ne, te, **kw)
             elif centry == "from_elementdensity":
@@ -792,7 +841,7 @@ def group_interp(ctx, dim):
             for k, p in enumerate(pts):
                 ctx.visit(name, reps[kin], p)
             if err is not None:
-                ctx.V("%s:repr=%s:raises:%s" % (name, reps[kin], _exc_type(err)), "wrapper raises", "a dict of interpolators", err)
+                ctx.failed(name, reps[kin], err, "wrapper", "a dict of interpolators")
                 continue
             if not isinstance(r, dict) or sorted(r.keys()) != list(range(ctx.Z + 1)):
                 ctx.V("%s:result-keys" % name, "result is not a dict keyed by charge 0..Z", list(range(ctx.Z + 1)), repr(r)[:200])
@@ -900,6 +949,12 @@ def group_equilibrium(ctx):
         kw = ctx.donor_kw(nd)
         for name, centry in zip(names, CORE):
             ctx.classes += ["entry:" + name, "entry:" + centry]
+            if centry in ctx.hung:
+                # the core entry point did not return on this very profile (reported under the core's signature);
+                # the wrapper runs the same point solver on it
+                for k, p in enumerate(pts):
+                    ctx.visit(name, "not-called:core-does-not-return", p)
+                continue
             if centry == "fractional_abundance":
                 r, err = ctx.call(getattr(ib, name), ctx.ad, ctx.el, eq, psin.copy(), ne, te, **kw)
             elif centry == "from_elementdensity":
@@ -910,7 +965,7 @@ def group_equilibrium(ctx):
             for k, p in enumerate(pts):
                 ctx.visit(name, rep, p)
             if err is not None:
-                ctx.V("%s:repr=%s:raises:%s" % (name, rep, _exc_type(err)), "wrapper raises", "a dict of Function3D", err)
+                ctx.failed(name, rep, err, "wrapper", "a dict of Function3D")
                 continue
             if not isinstance(r, dict) or sorted(r.keys()) != list(range(ctx.Z + 1)):
                 ctx.V("%s:result-keys" % name, "result is not a dict keyed by charge 0..Z", list(range(ctx.Z + 1)), repr(r)[:200])
